@@ -79,6 +79,7 @@ func init() {
 			func(p *sut.Proc) *e2.Result { return e2.G9HeldTick(p, true) }}, c.Pick(2, 10))
 		partStepThrough(c, a, []string{"leave", "join", "switch"})
 		partStepPairs(c, a, [][2]string{{"leave", "join2"}, {"join", "leave2"}, {"switch", "join2"}})
+		partRealBinaryDefaults(c, a, "C11")
 		return a.finish(c)
 	}
 }
